@@ -28,6 +28,10 @@ CLAIMS = {
         text="TLC explores all well-formed sequences of set / batch_set / begin / commit / rollback / tombstone / rejected writes within the bound and proves that inside a transaction every read (get, batch get, user data, user state under each retrieval flag, bulk versions for every user subset) equals the same read on the committed state; the transitions are replayed on a real StorageManager and TLC validates every recorded answer against the specification and against the post-commit read, and that the commit hands the database exactly the pending records with the epoch record last."),
     "C16": dict(cat="model_checking", design="5/C16", technique="TLA+ spec AkdStorage with cache, expiry (Tick), eviction (Pressure), rejected writes and flush + TLC (CacheTransparent); replay on real cached managers with real sleeps; every read validated by TLC against the cache-free state (TraceStorage)",
         text="TLC proves CacheTransparent (a read through the manager returns the pending transaction value or what the database holds) in every reachable state of the cached manager model including expiry, memory-pressure eviction, disabled cleaning, rejected database writes and flushes; explored behaviours are replayed on real managers with default, 2 ms-lifetime and 300-byte caches with the full query sweep after every step, and TLC validates every read against the cache-free specification state and get_direct against the database."),
+    "C11": dict(cat="model_checking", design="5/C11", technique="TLA+ spec AkdTrie: TLC proves CrashSubsets (every subset of every commit's record writes) and OldViewIntact; real commit batches captured through the Database wrapper, every prefix and sampled subsets applied to database copies observed through a ReadOnlyDirectory; observations validated by TLC (TraceDirectory)",
+        text="TLC proves on the trie model that every subset of every commit's record writes (epoch record excluded) leaves the previous epoch's view identical; on the real code the commit batch of the last publish of every replayed behaviour is captured, every prefix and seeded random subsets are applied to deep copies of the database, a second (read-only) instance is opened on each and its complete sweep is validated by TLC against the state before the publish, then against the new state once the epoch record is written."),
+    "C14": dict(cat="model_checking", design="5/C14", technique="one TLA+ spec (AkdDirectory) validates the traces of every configuration cell and both compile-feature builds in a single TLC run per history group (digest memo); TLC proves sub-batch/order independence on AkdTrie; split/permuted real insertions validated by TraceTrie",
+        text="The specification has no configuration: every output is a function of the history. The same TLC-generated histories are replayed under the parallelism x cache x restart/read-only matrix, both hashing configurations and two harness binaries (with and without greedy_lookup_preload/preload_history/parallel_vrf); all cells of a history are validated in one TLC run whose memo forces identical digests; TLC proves OrderIndependence of batch insertion and every bounded tree is rebuilt from random sub-batch splits with varying parallelism and validated against the canonical table."),
 }
 
 def main():
@@ -54,12 +58,12 @@ def main():
             na.append({"property_id": pid, "reason": reasons.get(pid, "check not built yet in this revision of /verif (planned, see DESIGN.md section 5)")})
     m = {
         "version": 1,
-        "setup_cmd": "cd /verif/harness && CARGO_NET_OFFLINE=true cargo build --release --offline && cd /verif/spec && for f in *.tla; do tla-sany $f > /dev/null || exit 1; done",
+        "setup_cmd": "cd /verif/harness && CARGO_NET_OFFLINE=true cargo build --release --offline && CARGO_NET_OFFLINE=true cargo build --release --offline --no-default-features --target-dir target-plain && cd /verif/spec && for f in *.tla; do tla-sany $f > /dev/null || exit 1; done",
         "hooks": {
             "guard": "facebook_akd_verif",
             "enable": "--cfg facebook_akd_verif via /verif/harness/.cargo/config.toml rustflags (harness builds /repo/akd and /repo/akd_core as path dependencies)",
             "baseline_off_cmd": "cd /repo/$(cat /w/out/cargo_root.txt) && cargo nextest run --workspace --no-fail-fast --tool-config-file pb:/w/lib/nextest.toml --profile pb --test-threads 8 --offline",
-            "source_commits": [],
+            "source_commits": ["0933e2d"],
             "add_only": True,
         },
         "engines": [
